@@ -172,11 +172,12 @@ theorem loopWalk_if (p ip : Int) (c : Node) (ifs elses ifs' elses' rest l rem : 
 theorem loopWalk_simple (p : Int) (c : Node) (rest l rem : List Node) (prev : Option Node) (hc : simpleCode c = true)
     (h3 : loopWalk rest (some (.stmt p c)) = .ok (l, rem)) :
     loopWalk (.stmt p c :: rest) prev = .ok (.stmt p c :: l, rem) := by
-  obtain ⟨_, _, h1, h2⟩ := simpleCode_spec hc
-  rw [loopWalk.eq_4]
+  obtain ⟨_, _, h1, h2, h4⟩ := simpleCode_spec hc
+  rw [loopWalk.eq_5]
   · simp only [h3, bind, Except.bind, pure, Except.pure]
   · intro rp re c' body t s v sg vr e; subst e; exact h2 rfl
   · intro ip c' ifs elses e; subst e; exact h1 rfl
+  · intro tp operand inner closed e; subst e; exact h4 rfl
 
 theorem loopDetect_of_walk (l w rem res : List Node) (h1 : loopWalk l none = .ok (w, rem)) (h2 : pyRemoveAll w rem = .ok res) :
     loopDetect l = .ok res := by
